@@ -155,7 +155,47 @@ def cap_rule(ck, F, E, field, limit, floor_pushes):
     ck.floor("C16.growth sites of Program.%s" % field, n, floor_pushes)
 
 
+def loop_names_unique(ck, F):
+    """"no two loops for the same variable": the only place a LoopInfo enters the FOR stack is start_loop, and every successful
+    path of it first removes any loop of that name (remove_loop_with_name) -- a fast path that overwrites the innermost entry in
+    place skips the removal, and two direct-mode FOR lines that share a location leave two entries for one variable."""
+    from lib import path_records
+    sl = get_fn(ck, F, "Program::start_loop")
+    if sl is None:
+        return
+    bad = 0
+    n = 0
+    for r in path_records(sl):
+        if r["outcome"] is not None and str(r["outcome"]).startswith("Err"):
+            continue
+        n += 1
+        if not any(sfx(c.callee, "Program::remove_loop_with_name") for c in r["calls"]):
+            bad += 1
+    ck.require(n > 0 and bad == 0, "C16:LOOPS:start-removes-same-name", "loop stack",
+               "every successful path of start_loop passes remove_loop_with_name first (%d path(s))" % n,
+               "Program::start_loop can register a loop without first removing the loops of the same name (%d of %d successful "
+               "paths): the FOR stack can hold two loops for one variable" % (bad, n), sl.span)
+
+
+def subscript_conversion(ck, F):
+    """An over-cap DIM is reported as OUT OF MEMORY by the capped constructor; that requires the subscript to reach it: the
+    conversion in evaluate_array_index is the full-width `usize::try_from(value as i64)`, not a narrower integer type that turns
+    large subscripts into ILLEGAL QUANTITY before the cap is consulted."""
+    b = F.one("ExpressionEvaluator::evaluate_array_index")
+    if b is None:
+        ck.missing("C16:CAP:subscript-conversion", "ExpressionEvaluator::evaluate_array_index")
+        return
+    tf = [c for c in b.calls() if c.callee.endswith("::try_from") and "TryFrom<" in c.callee]
+    narrow = [c.gargs[0] for c in tf if c.gargs and c.gargs[0] not in ("usize", "u64", "u128")]
+    ck.require(bool(tf) and not narrow, "C16:CAP:subscript-conversion", "array cap",
+               "subscripts are converted with usize::try_from",
+               "evaluate_array_index converts subscripts through %s: a DIM beyond that type's range fails with ILLEGAL QUANTITY "
+               "instead of the OUT OF MEMORY the cap prescribes" % (", ".join(narrow) or "no checked conversion"), b.span)
+
+
 def run(ck, F, E):
+    loop_names_unique(ck, F)
+    subscript_conversion(ck, F)
     limit = F.const("program::STACK_LIMIT")
     ck.require(limit == 32, "C16:CONST:STACK_LIMIT", "constants", "STACK_LIMIT == 32",
                "STACK_LIMIT is %r, the property says 32" % limit)
